@@ -349,7 +349,11 @@ Proof.
   destruct e as [i k|i w c| | | | |]; try exact HF.
   - destruct k as [| | | | | | | | | |?|u ? ? ?]; try exact HF; try (cbn [br_st]; apply sp_print_cfg).
     destruct u; try exact HF; cbn [br_st]; apply sp_print_cfg.
-  - destruct w; try exact HF; cbn [br_st]; apply sp_print_cfg.
+  - destruct w as [| | | | | | | | | | | | | | | | | | | |op net src addr|];
+      try exact HF; try (cbn [br_st]; apply sp_print_cfg).
+    (* WOpError: a sequence of separate print calls *)
+    cbv zeta. cbn [br_st].
+    destruct net, src, addr; rewrite ?sp_print_cfg; reflexivity.
 Qed.
 
 Lemma wrap_body_short w st :
@@ -834,6 +838,170 @@ Proof.
   unfold sp_print. rewrite Hp. now apply st_write_wrote.
 Qed.
 
+(* ---- several print calls in a row (net.OpError) ---- *)
+Definition wrote0 (st st' : fstate) (s : str) : Prop :=
+  wrote st st' s /\ fs_needNewline st' = 0%nat.
+
+Lemma wrote0_refl st : fs_needNewline st = 0%nat -> wrote0 st st [].
+Proof. intro H. split; [apply wrote_nil|exact H]. Qed.
+
+Lemma st_write_nn st s :
+  no_nl s = true -> fs_needNewline st = 0%nat -> fs_needNewline (st_write st s) = 0%nat.
+Proof.
+  intros Hn H0. destruct s as [|c r]; [exact H0|].
+  unfold st_write. rewrite write_loop_plain by assumption. exact H0.
+Qed.
+
+Lemma wrote0_step st st1 a ps out :
+  wrote0 st st1 a -> sprint_pieces ps = out -> no_nl out = true ->
+  wrote0 st (sp_print st1 ps) (a ++ out).
+Proof.
+  intros [[W1 W2 W3 W4 W5 W6] H0] Hp Hn. unfold sp_print. rewrite Hp.
+  destruct (st_write_wrote st1 out Hn H0) as [V1 V2 V3 V4 V5 V6].
+  split; [|now apply st_write_nn].
+  constructor; try congruence. rewrite V6, W6. now rewrite <- app_assoc.
+Qed.
+
+Lemma sprint_sp_safe s : ascii s = true -> sprint_pieces [PLit [sp]; PSafe s] = sp :: s.
+Proof.
+  intro Ha. unfold sprint_pieces, print_pieces. cbn [fold_left].
+  change (set_mode buf_empty SafeEscaped) with (mkbuf [] [] SafeEscaped false).
+  rewrite print_lit_step, print_safe_step. cbn [app].
+  rewrite take_pend; [reflexivity|discriminate|].
+  change (ascii ([sp] ++ s) = true). rewrite ascii_app, Ha. reflexivity.
+Qed.
+
+Lemma sprint_sp_unsafe s :
+  unsafe_ok s = true -> sprint_pieces [PLit [sp]; PUnsafe s] = [sp] ++ m_start ++ s ++ m_end.
+Proof.
+  intro Hu. unfold sprint_pieces, print_pieces. cbn [fold_left].
+  change (set_mode buf_empty SafeEscaped) with (mkbuf [] [] SafeEscaped false).
+  rewrite print_lit_step. cbn [app].
+  rewrite print_unsafe_step; [|discriminate|reflexivity|exact Hu].
+  match goal with |- buf_take (mkbuf ?x _ _ _) = _ =>
+    replace x with (([sp] ++ m_start ++ s) ++ m_end) by (rewrite <- !app_assoc; reflexivity) end.
+  rewrite take_end. now rewrite <- !app_assoc.
+Qed.
+
+(* one more print call " %s" with an unsafe argument after an ASCII buffer *)
+Lemma strip_tail a u :
+  ascii a = true -> unsafe_ok u = true ->
+  strip_markers (a ++ [sp] ++ m_start ++ u ++ m_end) = a ++ sp :: u.
+Proof.
+  intros Ha Hu. destruct (unsafe_ok_parts u Hu) as (Hne & Hua & Hun).
+  replace (a ++ [sp] ++ m_start ++ u ++ m_end) with ((a ++ [sp]) ++ m_start ++ u ++ m_end ++ [])
+    by (rewrite app_nil_r, <- !app_assoc; reflexivity).
+  rewrite strip_region; [|rewrite ascii_app, Ha; reflexivity|exact Hua].
+  cbn [strip_markers tokenize filter untok flat_map]. now rewrite app_nil_r, <- !app_assoc.
+Qed.
+
+Lemma operror_tail st s2 a u :
+  wrote0 st s2 a -> unsafe_ok u = true ->
+  wrote0 st (sp_print s2 [PLit [sp]; PUnsafe u]) (a ++ [sp] ++ m_start ++ u ++ m_end).
+Proof.
+  intros W Hu. destruct (unsafe_ok_parts u Hu) as (Hne & Hua & Hun).
+  apply (wrote0_step _ _ _ _ _ W (sprint_sp_unsafe u Hu)).
+  rewrite !no_nl_app, Hun. reflexivity.
+Qed.
+
+(* net.OpError: Op and Net are printed as safe strings, Source and Addr (absent when
+   empty) as unsafe ones.  With BOTH Source and Addr the engine prints "src -> addr"
+   while Error() says "src->addr" (see [operror_arrow_refuted] below), hence the
+   "not both" clause; and an entirely empty head makes Error() start with ": " while
+   the engine skips the empty entry (see [operror_empty_head_refuted]). *)
+Definition opt_unsafe_ok (s : str) : bool := is_empty s || unsafe_ok s.
+
+Definition operror_ok (op net src addr : str) : bool :=
+  ascii op && no_nl op && ascii net && no_nl net &&
+  opt_unsafe_ok src && opt_unsafe_ok addr &&
+  (is_empty src || is_empty addr) &&
+  nonempty (operror_head op net src addr).
+
+Lemma operror_ok_parts op net src addr :
+  operror_ok op net src addr = true ->
+  ascii op = true /\ no_nl op = true /\ ascii net = true /\ no_nl net = true /\
+  opt_unsafe_ok src = true /\ opt_unsafe_ok addr = true /\
+  (is_empty src || is_empty addr) = true /\ operror_head op net src addr <> [].
+Proof.
+  unfold operror_ok. intro Hok.
+  apply andb_true_iff in Hok as [Hok Hh]. apply andb_true_iff in Hok as [Hok Hone].
+  apply andb_true_iff in Hok as [Hok Haddr]. apply andb_true_iff in Hok as [Hok Hsrc].
+  apply andb_true_iff in Hok as [Hok Hnn]. apply andb_true_iff in Hok as [Hok Hna].
+  apply andb_true_iff in Hok as [Hopa Hopn].
+  repeat split; try assumption. now apply nonempty_ne.
+Qed.
+
+(* the redactable bytes the special-case printer writes (at most one of src, addr) *)
+Definition operror_np (net : str) : str := match net with [] => [] | _ => sp :: net end.
+Definition operror_red (op net src addr : str) : str :=
+  (op ++ operror_np net)
+  ++ (match src with [] => [] | _ => [sp] ++ m_start ++ src ++ m_end end)
+  ++ (match addr with [] => [] | _ => [sp] ++ m_start ++ addr ++ m_end end).
+
+Lemma operror_np_ok op net :
+  ascii op = true -> no_nl op = true -> ascii net = true -> no_nl net = true ->
+  ascii (op ++ operror_np net) = true /\ no_nl (op ++ operror_np net) = true.
+Proof.
+  intros Hopa Hopn Hna Hnn. rewrite ascii_app, no_nl_app, Hopa, Hopn. unfold operror_np.
+  destruct net as [|n0 nr]; [split; reflexivity|].
+  change (sp :: n0 :: nr) with ([sp] ++ n0 :: nr). rewrite ascii_app, no_nl_app, Hna, Hnn. split; reflexivity.
+Qed.
+
+Lemma operror_red_strip op net src addr :
+  operror_ok op net src addr = true ->
+  strip_markers (operror_red op net src addr) = operror_head op net src addr.
+Proof.
+  intro Hok. destruct (operror_ok_parts _ _ _ _ Hok) as (Hopa & Hopn & Hna & Hnn & Hsrc & Haddr & Hone & _).
+  destruct (operror_np_ok op net Hopa Hopn Hna Hnn) as [A2 _].
+  unfold operror_red, operror_head. fold (operror_np net).
+  destruct src as [|x sr].
+  - destruct addr as [|y ar].
+    + rewrite !app_nil_r. rewrite strip_ascii by exact A2. reflexivity.
+    + change (unsafe_ok (y :: ar) = true) in Haddr. rewrite !app_nil_l.
+      rewrite (strip_tail _ _ A2 Haddr). now rewrite <- app_assoc.
+  - destruct addr as [|y ar]; [|discriminate Hone].
+    change (unsafe_ok (x :: sr) = true) in Hsrc. rewrite !app_nil_r.
+    rewrite (strip_tail _ _ A2 Hsrc). now rewrite <- app_assoc.
+Qed.
+
+Lemma operror_wrote i c op net src addr text sent hm ct st :
+  operror_ok op net src addr = true -> clean st ->
+  wrote st (br_st (default_body (Wrap i (WOpError op net src addr) c) text sent false hm ct st))
+        (operror_red op net src addr).
+Proof.
+  intros Hok C. destruct (operror_ok_parts _ _ _ _ Hok) as (Hopa & Hopn & Hna & Hnn & Hsrc & Haddr & Hone & _).
+  unfold default_body. cbn [andb]. cbv zeta. cbn [br_st].
+  assert (W1 : wrote0 st (sp_print st [PSafe op]) op).
+  { exact (wrote0_step st st [] _ op (wrote0_refl st (proj1 (proj2 C))) (sprint_safe_ascii op Hopa) Hopn). }
+  set (s1 := sp_print st [PSafe op]) in *.
+  assert (W2 : wrote0 st (match net with [] => s1 | _ => sp_print s1 [PLit [sp]; PSafe net] end)
+                      (op ++ operror_np net)).
+  { unfold operror_np. destruct net as [|n0 nr]; [rewrite app_nil_r; exact W1|].
+    apply (wrote0_step _ _ _ _ _ W1 (sprint_sp_safe _ Hna)).
+    change (no_nl ([sp] ++ n0 :: nr) = true). rewrite no_nl_app, Hnn. reflexivity. }
+  set (s2 := match net with [] => s1 | _ => sp_print s1 [PLit [sp]; PSafe net] end) in *.
+  unfold operror_red.
+  destruct src as [|x sr].
+  - destruct addr as [|y ar].
+    + rewrite !app_nil_r. exact (proj1 W2).
+    + change (unsafe_ok (y :: ar) = true) in Haddr.
+      exact (proj1 (operror_tail st s2 _ (y :: ar) W2 Haddr)).
+  - destruct addr as [|y ar]; [|discriminate Hone].
+    change (unsafe_ok (x :: sr) = true) in Hsrc. rewrite app_nil_r.
+    exact (proj1 (operror_tail st s2 _ (x :: sr) W2 Hsrc)).
+Qed.
+
+Lemma bh_operror i c op net src addr text sent hm ct st :
+  operror_ok op net src addr = true -> clean st ->
+  body_head (default_body (Wrap i (WOpError op net src addr) c) text sent false hm ct st) st
+            (operror_head op net src addr).
+Proof.
+  intros Hok C. exists (operror_red op net src addr). split.
+  - now apply operror_wrote.
+  - change (strip_markers (operror_red op net src addr) = operror_head op net src addr).
+    now apply operror_red_strip.
+Qed.
+
 (* ================================================================== *)
 (* 5. plain trees                                                       *)
 (* ================================================================== *)
@@ -872,6 +1040,7 @@ Fixpoint plain_tree (e : err) : bool :=
     | WSyscallError sc => unsafe_ok sc && plain_tree c
     | WPathError op path => ascii op && no_nl op && unsafe_ok path && plain_tree c
     | WLinkError op old new => ascii op && no_nl op && unsafe_ok old && unsafe_ok new && plain_tree c
+    | WOpError op net src addr => operror_ok op net src addr && plain_tree c   (* not both src and addr *)
     end
   | Second i c s => plain_tree c
   | Barrier i smsg m => raw_msg_ok smsg
@@ -971,7 +1140,7 @@ Lemma wrap_body_clean w st :
   | WNewMsg rm => Some (sp_print st [PRaw rm], true, true)
   | WHint _ | WDetail _ => Some (st, false, false)
   | WFmtWrap _ | WPkgMsg _ | WPkgStack _ | WPathError _ _ | WLinkError _ _ _ | WSyscallError _
-  | WUser _ _ _ => None
+  | WOpError _ _ _ _ | WUser _ _ _ => None
   | _ => Some (st, false, true)
   end.
 Proof.
@@ -1128,6 +1297,16 @@ Proof.
     intros o wd k st acc Hpre. cbn [sem ns_fmt ns_text wrap_text].
     rewrite (node_keep _ c _ _ sc IH); [destruct sc; [contradiction|reflexivity]| | |exact Hpre].
     + intros o' st3 C. cbn [wrap_body]. unfold default_body. cbn [andb]. now apply bh_safe.
+    + intros o' st3 C. reflexivity.
+  - (* WOpError *)
+    apply andb_true_iff in Hp as [Hok Hc]. specialize (IH Hc).
+    assert (Hne : operror_head op net src addr <> []).
+    { unfold operror_ok in Hok. apply andb_true_iff in Hok as [_ Hh]. now apply nonempty_ne. }
+    split; [cbn [sem ns_text wrap_text]; destruct (operror_head op net src addr); [contradiction|discriminate]|].
+    intros o wd k st acc Hpre. cbn [sem ns_fmt ns_text wrap_text].
+    rewrite (node_keep _ c _ _ (operror_head op net src addr) IH); [| | |exact Hpre].
+    + destruct (operror_head op net src addr); [contradiction|reflexivity].
+    + intros o' st3 C. cbn [wrap_body]. now apply bh_operror.
     + intros o' st3 C. reflexivity.
 Qed.
 
@@ -1401,6 +1580,35 @@ Proof. intro H. apply short_ok_final, plain_short_ok, H. Qed.
 
 Corollary fmt_plain_short_is_error_text e : plain_tree e = true -> fmt_plain_short e = error_text e.
 Proof. apply short_is_text. Qed.
+
+(* Recorded finding about the code: for a *net.OpError with BOTH Source and Addr the
+   special-case printer of the engine prints "src -> addr" while Error() says
+   "src->addr"; so the conclusion of [short_is_text] fails there, and the clause
+   "not both" of [operror_ok] cannot be dropped. *)
+Definition operror_both : err :=
+  Wrap 2%positive (WOpError (lit "dial") (lit "tcp") (lit "10.0.0.1:1") (lit "10.0.0.2:2"))
+       (Leaf 1%positive (LErrString (lit "refused"))).
+
+Example operror_arrow_texts :
+  error_text operror_both = lit "dial tcp 10.0.0.1:1->10.0.0.2:2: refused" /\
+  fmt_plain_short operror_both = lit "dial tcp 10.0.0.1:1 -> 10.0.0.2:2: refused".
+Proof. vm_compute. split; reflexivity. Qed.
+
+Example operror_arrow_refuted : fmt_plain_short operror_both <> error_text operror_both.
+Proof. vm_compute. discriminate. Qed.
+
+(* with at most one of the two the theorem applies *)
+Example operror_src_only_plain :
+  plain_tree (Wrap 2%positive (WOpError (lit "dial") (lit "tcp") (lit "10.0.0.1:1") [])
+                   (Leaf 1%positive (LErrString (lit "refused")))) = true.
+Proof. vm_compute. reflexivity. Qed.
+
+(* an OpError whose four strings are all empty: Error() is ": cause" but the engine
+   skips the empty entry; hence the clause [nonempty (operror_head ...)] *)
+Example operror_empty_head_refuted :
+  let e := Wrap 2%positive (WOpError [] [] [] []) (Leaf 1%positive (LErrString (lit "refused"))) in
+  fmt_plain_short e <> error_text e.
+Proof. vm_compute. discriminate. Qed.
 
 (* ================================================================== *)
 (* 7. leaves that are always plain                                      *)
